@@ -98,13 +98,21 @@ func TomlKeyToEvCode(key string, lookupTable map[string]evdev.EvCode) (evdev.EvC
 
 }
 
-func ParseData(data []byte) (Config, error) {
+func ParseData(data []byte) (config Config, err error) {
+	// the toml decoder is known to panic on some malformed documents,
+	// a broken user file must not take the application down when configs are reloaded
+	defer func() {
+		if r := recover(); r != nil {
+			config, err = Config{}, fmt.Errorf("parsing failed: %v", r)
+		}
+	}()
+
 	cfg := TOMLDeviceConfig{}
 
 	d := toml.NewDecoder(bytes.NewReader(data))
 	d.DisallowUnknownFields()
 
-	err := d.Decode(&cfg)
+	err = d.Decode(&cfg)
 	if err != nil {
 		return Config{}, fmt.Errorf("parsing failed: %w", err)
 	}
